@@ -211,11 +211,12 @@ func oracle(c *Case, o *Obs) (string, string) {
 		path := strings.Split(r.Path, "/")
 		n, t := findNode(c.G, path)
 		switch r.What {
-		case "fail":
+		case "fail", "prefail", "postfail":
 			if n.Err.Nested { // the body's error already names node x of the graph the body ran
 				path = append(path, "x")
 			}
-			eager = append(eager, cand{path: path, err: n.Err, pan: -1, what: r.Path + " failed"})
+			what := map[string]string{"fail": " failed", "prefail": ": its state pre-handler failed", "postfail": ": its state post-handler failed"}[r.What]
+			eager = append(eager, cand{path: path, err: n.Err, pan: -1, what: r.Path + what})
 		case "panic":
 			eager = append(eager, cand{path: path, pan: n.ID, what: r.Path + " panicked"})
 		case "tool-fail":
@@ -281,29 +282,41 @@ func oracle(c *Case, o *Obs) (string, string) {
 		return fmt.Sprintf("the error names the node path %v, which is not a path of nodes of the graph: %s", p.MsgPath, p.Msg), "path-not-a-node"
 	}
 	pathHit := false
+	// (several candidates may unwrap alike — two nodes failing with the same sentinel —: the message
+	// must say what ONE of the matching causes said)
+	lostMsg := ""
 	for i := range eager {
 		if samePath(p.MsgPath, eager[i].path) {
 			pathHit = true
 			if p.matches(&eager[i]) {
-				if lost := p.saysSo(&eager[i]); lost != "" && p.full != "" {
-					return fmt.Sprintf("the error names the failing node %v and unwraps to its error, but its message no longer contains %s of the cause: %s", p.MsgPath, lost, p.Msg), "message-lost-cause"
+				lost := p.saysSo(&eager[i])
+				if lost == "" || p.full == "" {
+					return "", ""
 				}
-				return "", ""
+				if lostMsg == "" {
+					lostMsg = fmt.Sprintf("the error names the failing node %v and unwraps to its error, but its message no longer contains %s of the cause: %s", p.MsgPath, lost, p.Msg)
+				}
 			}
 		}
 	}
 	for i := range lazy {
 		if p.matches(&lazy[i]) {
-			if lost := p.saysSo(&lazy[i]); lost != "" && p.full != "" {
-				return fmt.Sprintf("the error unwraps to the stream's error, but its message no longer contains %s of the cause: %s", lost, p.Msg), "message-lost-cause"
+			lost := p.saysSo(&lazy[i])
+			if lost == "" || p.full == "" {
+				return "", ""
 			}
-			return "", ""
+			if lostMsg == "" {
+				lostMsg = fmt.Sprintf("the error unwraps to the stream's error, but its message no longer contains %s of the cause: %s", lost, p.Msg)
+			}
 		}
 		// an interrupt's checkpoint conversion read the panicking stream on the run loop's goroutine of a
 		// nested run: the parent's executor contained it; in stream mode the payload is a second panic's
 		if lazy[i].pan >= 0 && rerun && p.Panic == -2 && p.MsgPanic {
 			return "", ""
 		}
+	}
+	if lostMsg != "" {
+		return lostMsg, "message-lost-cause"
 	}
 	if p.Is[2] && (hasLimit(c.G) || c.RtMax > 0) {
 		return "", ""
